@@ -46,8 +46,8 @@ static const char* FAMILY[N_FAMILY] = {
     "GenEigsRealShiftSolver<DenseGenRealShiftSolve>", "GenEigsRealShiftSolver<SparseGenRealShiftSolve>",
     "GenEigsComplexShiftSolver<DenseGenComplexShiftSolve>", "GenEigsComplexShiftSolver<SparseGenComplexShiftSolve>",
     "SymGEigsSolver<Dense,DenseCholesky,Cholesky>", "SymGEigsSolver<Sparse,SparseCholesky,Cholesky>", "SymGEigsSolver<Sparse,SparseRegularInverse,RegularInverse>",
-    "SymGEigsShiftSolver<SymShiftInvert<Sparse,Sparse>,ShiftInvert>", "SymGEigsShiftSolver<SymShiftInvert<Dense,Dense>,Buckling>",
-    "SymGEigsShiftSolver<SymShiftInvert<Sparse,Dense>,Cayley>"};
+    "SymGEigsShiftSolver<SymShiftInvert<Sparse,Sparse,Upper,Lower>,ShiftInvert>", "SymGEigsShiftSolver<SymShiftInvert<Dense,Dense,Upper,Lower>,Buckling>",
+    "SymGEigsShiftSolver<SymShiftInvert<Sparse,Dense,Lower,Upper>,Cayley>"};
 static const char* FSHORT[N_FAMILY] = {"sym-dense", "sym-sparse", "herm-dense", "symshift-dense", "symshift-sparse", "gen-dense", "gen-sparse", "genrs-dense",
                                        "genrs-sparse", "gencs-dense", "gencs-sparse", "geigs-chol-dense", "geigs-chol-sparse", "geigs-reginv", "geigs-shiftinv",
                                        "geigs-buckling", "geigs-cayley"};
@@ -228,11 +228,12 @@ VZ_PAIR(12, Spectra::SparseSymMatProd<T>, (&ctl, d.As), Spectra::SparseCholesky<
         Spectra::SymGEigsSolver<OpA VZ_COMMA OpB VZ_COMMA GEigsMode::Cholesky>, (o.op, o.bop, d.nev, d.ncv))
 VZ_PAIR(13, Spectra::SparseSymMatProd<T>, (&ctl, d.As), Spectra::SparseRegularInverse<T>, (&ctlB, d.Bs),
         Spectra::SymGEigsSolver<OpA VZ_COMMA OpB VZ_COMMA GEigsMode::RegularInverse>, (o.op, o.bop, d.nev, d.ncv))
-VZ_PAIR(14, Spectra::SymShiftInvert<T VZ_COMMA Eigen::Sparse VZ_COMMA Eigen::Sparse>, (&ctl, d.As, d.Bs), Spectra::SparseSymMatProd<T>, (&ctlB, d.Bs),
+// (mixed triangle options on purpose: the default Lower/Lower runs everywhere in the library's own tests; C03 and C11 sweep all combinations)
+VZ_PAIR(14, Spectra::SymShiftInvert<T VZ_COMMA Eigen::Sparse VZ_COMMA Eigen::Sparse VZ_COMMA Eigen::Upper VZ_COMMA Eigen::Lower>, (&ctl, d.As, d.Bs), Spectra::SparseSymMatProd<T>, (&ctlB, d.Bs),
         Spectra::SymGEigsShiftSolver<OpA VZ_COMMA OpB VZ_COMMA GEigsMode::ShiftInvert>, (o.op, o.bop, d.nev, d.ncv, d.sigma))
-VZ_PAIR(15, Spectra::SymShiftInvert<T VZ_COMMA Eigen::Dense VZ_COMMA Eigen::Dense>, (&ctl, d.A, d.B), Spectra::DenseSymMatProd<T>, (&ctlB, d.A),
+VZ_PAIR(15, Spectra::SymShiftInvert<T VZ_COMMA Eigen::Dense VZ_COMMA Eigen::Dense VZ_COMMA Eigen::Upper VZ_COMMA Eigen::Lower>, (&ctl, d.A, d.B), Spectra::DenseSymMatProd<T>, (&ctlB, d.A),
         Spectra::SymGEigsShiftSolver<OpA VZ_COMMA OpB VZ_COMMA GEigsMode::Buckling>, (o.op, o.bop, d.nev, d.ncv, d.sigma))
-VZ_PAIR(16, Spectra::SymShiftInvert<T VZ_COMMA Eigen::Sparse VZ_COMMA Eigen::Dense>, (&ctl, d.As, d.B), Spectra::DenseSymMatProd<T>, (&ctlB, d.B),
+VZ_PAIR(16, Spectra::SymShiftInvert<T VZ_COMMA Eigen::Sparse VZ_COMMA Eigen::Dense VZ_COMMA Eigen::Lower VZ_COMMA Eigen::Upper>, (&ctl, d.As, d.B), Spectra::DenseSymMatProd<T>, (&ctlB, d.B),
         Spectra::SymGEigsShiftSolver<OpA VZ_COMMA OpB VZ_COMMA GEigsMode::Cayley>, (o.op, o.bop, d.nev, d.ncv, d.sigma))
 
 // dispatch: call f(Fac<T, F>) for the family; families outside the compiled group are skipped (returns false)
